@@ -30,6 +30,8 @@ package staticfiles
 //@ define sameOrigin(p string) bool = !(len(p) >= 2 && p[0] == '/' && p[1] == '/')
 //@ extern (net/http.Header).Set
 
+//@ func calculateEtag
+//@   pure
 //@ func (FileServer).serveFile
 //@   requires r != nil && r.URL != nil
 //@   at call net/http.ServeContent assert [sink_not_hidden] !fs.IsHidden(statOf(f))
